@@ -140,3 +140,68 @@ Section K20.
   Definition single (rep : bool) (mask : option nat) (w : world) (c : call) : res out :=
     let '(x, n, k) := c in fst (fst (transform rep mask x n k w)).
 End K20.
+
+(* ---------------------------------------------------------------------------------------------------------------
+   K20c — a private cache of the estimator that transform CONSULTS, keyed by an auxiliary argument of the call.
+   New kind of state (the e_cache above is only ever written): e.g. a (reference x vocabulary) cost matrix kept on
+   the estimator between transform(X, vectors=V) calls.  The value depends on the fitted model and on the auxiliary
+   argument (costf mdl a); what the call returns depends on the cost that was actually used (outc).
+     c_kc = Some (a0, v)   the cache holds v, computed for the auxiliary argument a0 (a0 is ghost state: real code
+                           keeps only v and whatever its validity test looks at)
+     valid a0 a            the validity test of the code: may the cached value made for a0 be used for a?
+                           (equality of the key: sound; "same number of rows": not sound)
+     reset                 whether fit drops the cache (true) or leaves it alone (false)
+   The cache is filled before the block loop, so a transform that raises in a later block has already replaced it. *)
+Section K20c.
+  Variables data model out aux cost : Type.
+  Variable fitf : dict -> data -> model.
+  Variable costf : model -> aux -> cost.
+  Variable outc : model -> dict -> data -> aux -> cost -> out.
+  Variable norm : data -> data.
+  Variable cachef : data -> nat.
+  Variable valid : aux -> aux -> bool.
+
+  Record cworld := { c_w : world model; c_kc : option (aux * cost) }.
+
+  (* the cost a transform with auxiliary argument a works with *)
+  Definition cost_used (mdl : model) (kc : option (aux * cost)) (a : aux) : cost :=
+    match kc with
+    | Some (a0, v) => if valid a0 a then v else costf mdl a
+    | None => costf mdl a
+    end.
+
+  Definition transform_c (rep : bool) (mask : option nat) (x : data) (a : aux) (nblocks k : nat) (cw : cworld)
+    : res out * data * cworld :=
+    match e_model model (w_est model (c_w cw)) with
+    | None => (Exn, x, cw)
+    | Some mdl =>
+        let v := cost_used mdl (c_kc cw) a in
+        let kc' := match c_kc cw with
+                   | Some (a0, v0) => if valid a0 a then Some (a0, v0) else Some (a, v)
+                   | None => Some (a, v)
+                   end in
+        let '(r, xa, w') := transform data model out (fun m d y => outc m d y a v) norm cachef rep mask x nblocks k (c_w cw) in
+        (r, xa, {| c_w := w'; c_kc := kc' |})
+    end.
+
+  Definition fit_c (reset rep : bool) (mask : option nat) (x : data) (nblocks k : nat) (cw : cworld)
+    : res unit * data * cworld :=
+    let '(r, xa, w') := fit data model fitf norm cachef rep mask x nblocks k (c_w cw) in
+    (r, xa, {| c_w := w'; c_kc := if reset then None else c_kc cw |}).
+
+  (* the reference of the harness: the same fitted state with an empty cache (an untouched copy taken after fit) *)
+  Definition clear (cw : cworld) : cworld := {| c_w := c_w cw; c_kc := None |}.
+
+  Definition ccall := (data * aux * nat * nat)%type.      (* input, auxiliary argument, number of blocks, faulting block *)
+
+  Fixpoint run_history_c (rep : bool) (mask : option nat) (cw : cworld) (cs : list ccall) : list (cworld * res out) :=
+    match cs with
+    | [] => []
+    | (x, a, n, k) :: cs' =>
+        let '(r, _, cw') := transform_c rep mask x a n k cw in
+        (cw', r) :: run_history_c rep mask cw' cs'
+    end.
+
+  Definition single_c (rep : bool) (mask : option nat) (cw : cworld) (c : ccall) : res out :=
+    let '(x, a, n, k) := c in fst (fst (transform_c rep mask x a n k (clear cw))).
+End K20c.
